@@ -566,6 +566,7 @@ func (g *gen) declUnion(f *file) {
 			}
 			if !dup {
 				members = append(members, m.name)
+				m.unionMember = true // from now on nobody may embed it
 				continue
 			}
 		}
@@ -576,6 +577,7 @@ func (g *gen) declUnion(f *file) {
 			continue
 		}
 		members = append(members, st.name)
+		st.unionMember = true // from now on nobody may embed it
 	}
 	if len(members) == 0 {
 		st := g.fresh("S")
